@@ -59,6 +59,9 @@ fn shape_for(i: u64, rng: &mut Rng) -> Shape {
         sh.asserts.push(ASpec { col: c, kind: AKind::Periodic { first: 1, stride: 4 } });
         sh.rules.push(Rule::Pow { d: 2, a: 1, b: 1, src: 0, per: None });
         sh.asserts.push(ASpec { col: c + 1, kind: AKind::Sequence { first: 1, stride: n / 4 } });
+        // and a sequence assertion whose values are all equal (on a constant column)
+        sh.rules.push(Rule::Pow { d: 1, a: 1, b: 0, src: c + 2, per: None });
+        sh.asserts.push(ASpec { col: c + 2, kind: AKind::Sequence { first: n / 4 - 1, stride: n / 4 } });
         sh.exemptions = sh.exemptions.min(sh.max_exemptions());
     }
     // Lagrange kernel column, auxiliary segment narrower than / as wide as the main segment
